@@ -41,6 +41,7 @@ macro_rules! sk_harness {
             unsafe { ZEROS_LEFT = 3; }
             let (x, ys) = vx_kani_sk_scalars::<$n>(&mut KRng, &G1Projective::generator());
             assert!(!bool::from(x.is_zero()));
+            assert!(ys.len() == $n);
             for y in ys.iter() { assert!(!bool::from(y.is_zero())); }
             unsafe { assert!(DRAWS >= 1 + $n); } // the stub, not the real sampler, was reached (vacuity guard)
         }
@@ -87,6 +88,7 @@ macro_rules! sk_own_draws_harness {
         fn $name() {
             let (x, ys) = vx_kani_sk_scalars::<$n>(&mut KRng, &G1Projective::generator());
             assert!(tag_of(&x) >= 1);
+            assert!(ys.len() == $n);
             let mut i = 0;
             while i < $n {
                 assert!(tag_of(&ys[i]) >= 1);
